@@ -96,6 +96,8 @@ def make_dataset(frame, kshape, bits, psf_kind="nonneg", seed=0, sub=1, data_kin
 # ----------------------------------------------------------------------------- linear objects
 
 OBJ_KINDS = ("rectA", "rectB", "del", "func", "funcS")
+# extra kinds used by explicit menus only (not part of the permutation alphabet): a second, different 2-function list
+EXTRA_KINDS = ("funcB",)
 
 
 def _func_list_cls():
@@ -178,6 +180,11 @@ def make_obj(fx, kind, reg=True, seed=0, coefficient=1.0):
             mapper_grids=aa.MapperGrids(mask=mask, source_plane_data_grid=sg, source_plane_mesh_grid=mesh, adapt_data=fx["ds"].noise_map),
             over_sampler=osr, regularization=regul,
         )
+    if kind == "funcB":
+        n = fx["n"]
+        k = np.arange(n, dtype=float)
+        mm = np.stack([0.15 + (k * 5 % 7) / 6.0, 0.9 - (k * 3 % 4) / 5.0], axis=1)
+        return func_list_cls()(grid=fx["ds"].grids.uniform, mapping_matrix=mm, regularization=regul)
     if kind in ("func", "funcS"):
         n = fx["n"]
         k = np.arange(n, dtype=float)
